@@ -9,13 +9,14 @@
 //! each probed variable exactly the value the crate itself just evaluated `(v)` to - the
 //! innermost binding.
 
-use std::collections::{BTreeMap, BTreeSet};
+use std::collections::BTreeSet;
 
 use crate::choice::Ch;
 use crate::device::*;
 use crate::engine::*;
 use crate::gen::*;
 use crate::model::*;
+use crate::probe::*;
 use crate::props::common::*;
 use crate::real::*;
 
@@ -30,121 +31,6 @@ fn vars_cfg() -> Cfg {
     c.w_let = 9;
     c.w_loop = 6;
     c
-}
-
-#[derive(Clone, Debug, Default)]
-struct RowScope {
-    /// definitely bound when the row is evaluated (on every execution)
-    definite: BTreeSet<String>,
-    /// possibly bound: everything a `let` binds anywhere at the level of an enclosing frame
-    /// (while bodies included) plus the counters of the enclosing loops
-    possible: BTreeSet<String>,
-    probes: Vec<Option<String>>,
-    depth: usize,
-    after_loop: bool,
-    shadowed: bool,
-}
-
-/// names bound by `let` at the level of this frame (while bodies included, loop bodies not)
-fn frame_lets(b: &[Stmt], out: &mut BTreeSet<String>) {
-    for s in b {
-        match s {
-            Stmt::Let(n, _) => {
-                out.insert(n.clone());
-            }
-            Stmt::While(_, inner) => frame_lets(inner, out),
-            _ => {}
-        }
-    }
-}
-
-const NPROBES: usize = 2;
-
-/// Tag every row, add the probe columns, and compute the scope sets of every row.
-fn instrument(b: &mut Built, ch: &mut Ch) -> BTreeMap<usize, RowScope> {
-    b.sigs.insert(0, Sig { name: "TAG".into(), bits: 32, kind: Kind::In(InVal::Val(0)) });
-    b.prog.header.insert(0, "TAG".into());
-    for k in 0..NPROBES {
-        b.sigs.insert(1 + k, Sig { name: format!("PR{k}"), bits: 64, kind: Kind::In(InVal::Val(0)) });
-        b.prog.header.insert(1 + k, format!("PR{k}"));
-    }
-    let mut scopes = BTreeMap::new();
-    struct Ctx<'a, 'b> {
-        ch: &'a mut Ch<'b>,
-        scopes: &'a mut BTreeMap<usize, RowScope>,
-    }
-    fn row(id: usize, es: &mut Vec<Entry>, definite: &BTreeSet<String>, possible: &BTreeSet<String>, outer: &[BTreeSet<String>], depth: usize, after_loop: bool, cx: &mut Ctx) {
-        let names: Vec<&String> = definite.iter().collect();
-        let mut probes = vec![];
-        for k in 0..NPROBES {
-            if names.is_empty() {
-                es.insert(k, Entry::Num(0, Radix::Dec));
-                probes.push(None);
-            } else {
-                let v = names[cx.ch.upto(names.len())].clone();
-                es.insert(k, Entry::Paren(Expr::Var(v.clone())));
-                probes.push(Some(v));
-            }
-        }
-        es.insert(0, Entry::Num(id as u64 + 1, Radix::Dec));
-        // a name bound in two enclosing frames at once
-        let shadowed = definite.iter().any(|n| outer.iter().filter(|f| f.contains(n)).count() >= 2);
-        cx.scopes.insert(id, RowScope { definite: definite.clone(), possible: possible.clone(), probes, depth, after_loop, shadowed });
-    }
-    #[allow(clippy::too_many_arguments)]
-    fn block(bl: &mut [Stmt], definite: &mut BTreeSet<String>, possible: &BTreeSet<String>, frames: &mut Vec<BTreeSet<String>>, depth: usize, cx: &mut Ctx) {
-        let mut after_loop = false;
-        for s in bl {
-            match s {
-                Stmt::Let(n, _) => {
-                    definite.insert(n.clone());
-                    frames.last_mut().unwrap().insert(n.clone());
-                }
-                Stmt::Row(id, es) => row(*id, es, definite, possible, frames, depth, after_loop, cx),
-                Stmt::Repeat(_, id, es) => {
-                    let mut d = definite.clone();
-                    d.insert("n".into());
-                    let mut p = possible.clone();
-                    p.insert("n".into());
-                    frames.push(["n".to_string()].into_iter().collect());
-                    row(*id, es, &d, &p, frames, depth + 1, after_loop, cx);
-                    frames.pop();
-                    after_loop = true;
-                }
-                Stmt::Loop(v, _, inner) => {
-                    let mut d = definite.clone();
-                    d.insert(v.clone());
-                    let mut p = possible.clone();
-                    p.insert(v.clone());
-                    frame_lets(inner, &mut p);
-                    frames.push([v.clone()].into_iter().collect());
-                    block(inner, &mut d, &p, frames, depth + 1, cx);
-                    frames.pop();
-                    after_loop = true;
-                }
-                Stmt::While(_, inner) => {
-                    // no scope of its own; what it binds is not definite afterwards
-                    let mut d = definite.clone();
-                    let saved = frames.last().unwrap().clone();
-                    block(inner, &mut d, possible, frames, depth, cx);
-                    *frames.last_mut().unwrap() = saved;
-                }
-                Stmt::ResetRandom | Stmt::Declare(..) => {}
-            }
-        }
-    }
-    let mut possible = BTreeSet::new();
-    frame_lets(&b.prog.stmts, &mut possible);
-    let mut definite = BTreeSet::new();
-    let mut frames = vec![BTreeSet::new()];
-    // the choice stream borrowed for the walk
-    let data: Vec<u32> = (0..120).map(|_| ch.raw()).collect();
-    let mut ch2 = Ch::new(&data);
-    let mut cx = Ctx { ch: &mut ch2, scopes: &mut scopes };
-    block(&mut b.prog.stmts, &mut definite, &possible, &mut frames, 0, &mut cx);
-    b.cols = col_roles(&b.prog.header, &b.sigs);
-    b.analysis = analyse(&b.prog);
-    scopes
 }
 
 impl Property for C18 {
@@ -167,7 +53,7 @@ impl Property for C18 {
         let mut out = CaseOut::new();
         let cfg = vars_cfg();
         let mut built = gen_case(&mut Ch::new(&s[0]), &cfg);
-        let scopes = instrument(&mut built, &mut Ch::new(&s[1]));
+        let scopes = instrument(&mut built, &mut Ch::new(&s[1]), 2, ProbePref::Vars, &[]);
         let text = built_text(&built);
         let mut dch = Ch::new(&s[2]);
         let mut spec = gen_spec(
